@@ -113,6 +113,29 @@ def step (line : String) : String :=
     match parseFilterVal f, parseParmsVal p, parseInflate i, bytesOfHex h with
     | some f, some p, some tab, some d => showRes (streamDecodeRaw (lookupInflate tab) f p d)
     | _, _, _, _ => "bad-op"
+  | ["lenval", objs, v] =>
+    -- objs: "-" or id:i<int> / id:r<id> / id:o separated by commas; v: none | i<int> | r<id> | o
+    let parseObj (s : String) : Option LenObj :=
+      match s.toList with
+      | 'i' :: r => (String.ofList r).toInt?.map LenObj.int
+      | 'r' :: r => (String.ofList r).toNat?.map LenObj.ref
+      | ['o'] => some LenObj.other
+      | _ => none
+    let table : Option (List (Nat × LenObj)) :=
+      if objs == "-" then some []
+      else (objs.splitOn ",").mapM (fun e =>
+        match e.splitOn ":" with
+        | [i, o] => match i.toNat?, parseObj o with
+          | some i, some o => some (i, o)
+          | _, _ => none
+        | _ => none)
+    let val : Option (Option LenObj) := if v == "none" then some none else (parseObj v).map some
+    match table, val with
+    | some t, some x =>
+      match lengthValue t x with
+      | none => "none"
+      | some n => toString n
+    | _, _ => "bad-op"
   | ["streamx", fb, pos, len, h] =>
     match pos.toNat?, (if len == "none" then some none else len.toInt?.map some), bytesOfHex h with
     | some pos, some len, some d =>
